@@ -295,6 +295,7 @@ func c37ExtractMigratorFlow(x *ExtractCtx) error {
 	})
 	var flows []c37Flow
 	var optionTypes []string
+	var optionGuards, optionValues []string // per method: identifiers of the guard around the options literal; (method, option field, value expression)
 	for _, method := range []string{"PutObject", "CreateMultipartUpload", "UploadPart", "CompleteMultipartUpload"} {
 		fd := FindFunc(f, "StorageToS3UploadAPIClientAdapter", method)
 		if fd == nil {
@@ -337,6 +338,31 @@ func c37ExtractMigratorFlow(x *ExtractCtx) error {
 			if len(optLits) > 0 {
 				for _, cl := range optLits {
 					optionTypes = append(optionTypes, method+":"+x.Src(cl.Type))
+					// the condition under which the options are built at all: the identifiers of the
+					// innermost enclosing `if` ("*" when the literal is built unconditionally)
+					guard := []string{"*"}
+					ast.Inspect(fd.Body, func(n ast.Node) bool {
+						is, ok := n.(*ast.IfStmt)
+						if !ok || is.Body.Pos() > cl.Pos() || cl.End() > is.Body.End() {
+							return true
+						}
+						guard = nil
+						seen := map[string]bool{}
+						ast.Inspect(is.Cond, func(m ast.Node) bool {
+							if id, ok := m.(*ast.Ident); ok && id.Name != "len" && id.Name != "nil" && !seen[id.Name] {
+								seen[id.Name] = true
+								guard = append(guard, id.Name)
+							}
+							return true
+						})
+						return true
+					})
+					optionGuards = append(optionGuards, fmt.Sprintf("(%s, %s)", LeanStr(method), LeanStrList(guard)))
+					for _, el := range cl.Elts {
+						if kvx, ok := el.(*ast.KeyValueExpr); ok {
+							optionValues = append(optionValues, fmt.Sprintf("(%s, %s, %s)", LeanStr(method), LeanStr(x.Src(kvx.Key)), LeanStr(x.Src(kvx.Value))))
+						}
+					}
 					for _, el := range cl.Elts {
 						kvx, ok := el.(*ast.KeyValueExpr)
 						if !ok {
@@ -414,6 +440,10 @@ func c37ExtractMigratorFlow(x *ExtractCtx) error {
 	}
 	fmt.Fprintf(w, "]\n\n/-- Option struct types the adapter builds (method:type). -/\n")
 	fmt.Fprintf(w, "def adapterOptionTypes : List String := %s\n\n", LeanStrList(optionTypes))
+	fmt.Fprintf(w, "/-- Per adapter method: the identifiers the condition guarding the construction of its options\nstruct tests (`*` = built unconditionally). An option whose value is not among them is lost whenever it\nis the only attribute present. -/\n")
+	fmt.Fprintf(w, "def adapterOptionGuards : List (String × List String) := [%s]\n\n", strings.Join(optionGuards, ", "))
+	fmt.Fprintf(w, "/-- (method, option field, value expression) of the options literal. -/\n")
+	fmt.Fprintf(w, "def adapterOptionValues : List (String × String × String) := [%s]\n\n", strings.Join(optionValues, ", "))
 	fmt.Fprintf(w, "end Pithos.Gen.MigratorFlow\n")
 	return nil
 }
